@@ -234,7 +234,10 @@ def direct_oracle(cases):
             checked += 1
             if not pyspec.same(want, x):
                 bad.append((ci, k, want))
-                db = None                     # resynchronise on the implementation's own contents at the next iteration
+                kind, _ = _kind(o)
+                if kind in WRITE_KINDS:
+                    db = None                 # resynchronise on the implementation's own contents at the next iteration
+                # a read that answers wrongly leaves the contents alone: later steps (e.g. the same read through a handle) are still judged
                 continue
             db = db2
     return bad, checked
